@@ -103,6 +103,7 @@ structure IteOK (m : MddMgr) (g u v w : Int) (m' : MddMgr) : Prop where
   lvl : min (m.tbl.levelOf g) (min (m.tbl.levelOf u) (m.tbl.levelOf v)) ≤ m'.tbl.levelOf w
   den : ∀ a, MValid m.tbl a →
     denM m'.tbl w a = if denM m.tbl g a then denM m.tbl u a else denM m.tbl v a
+  exact : ∀ ext, RefExact m ext → RefExact m' ext
 
 def IteSound (rec : Int → Int → Int → MM Int) : Prop :=
   ∀ m g u v, MInv m → m.tbl.Mem g → m.tbl.Mem u → m.tbl.Mem v →
@@ -115,6 +116,7 @@ theorem mIteList_spec (rec : Int → Int → Int → MM Int) (hrec : IteSound re
       gs.length = us.length → us.length = vs.length →
       ∀ ws m', mIteList rec gs us vs m = (.ok ws, m') →
         MInv m' ∧ MExt m.tbl m'.tbl ∧ ws.length = gs.length ∧
+        (∀ ext, RefExact m ext → RefExact m' ext) ∧
         ∀ (j : Nat) (g u v : Int), gs[j]? = some g → us[j]? = some u → vs[j]? = some v →
           ∃ w, ws[j]? = some w ∧ m'.tbl.Mem w ∧
             min (m.tbl.levelOf g) (min (m.tbl.levelOf u) (m.tbl.levelOf v)) ≤ m'.tbl.levelOf w ∧
@@ -128,7 +130,7 @@ theorem mIteList_spec (rec : Int → Int → Int → MM Int) (hrec : IteSound re
     simp only [Prod.mk.injEq, Except.ok.injEq] at hr
     obtain ⟨hws, hm⟩ := hr
     subst hws hm
-    refine ⟨h, MExt.refl _, rfl, ?_⟩
+    refine ⟨h, MExt.refl _, rfl, fun _ hx => hx, ?_⟩
     intro j g u v hg
     simp at hg
   | cons g0 gs ih =>
@@ -153,12 +155,12 @@ theorem mIteList_spec (rec : Int → Int → Int → MM Int) (hrec : IteSound re
             subst hws hm
             have hW := h.wf.toMWF
             have hW1 := R.inv.wf.toMWF
-            obtain ⟨hinv2, hext2, hlen2, hall2⟩ := ih us vs m1 R.inv
+            obtain ⟨hinv2, hext2, hlen2, hex2, hall2⟩ := ih us vs m1 R.inv
               (fun x hx => R.ext.mem (hgm x (List.mem_cons_of_mem _ hx)))
               (fun x hx => R.ext.mem (hum x (List.mem_cons_of_mem _ hx)))
               (fun x hx => R.ext.mem (hvm x (List.mem_cons_of_mem _ hx)))
               (by simpa using hl1) (by simpa using hl2) ws' m2 hrest
-            refine ⟨hinv2, R.ext.trans hext2, by simp [hlen2], ?_⟩
+            refine ⟨hinv2, R.ext.trans hext2, by simp [hlen2], fun ext hx => hex2 ext (R.exact ext hx), ?_⟩
             intro j g u v hg hu hv
             cases j with
             | zero =>
@@ -202,14 +204,14 @@ theorem mIteF_sound : ∀ f, IteSound (mIteF f) := by
       next hg =>
       simp only [Prod.mk.injEq, Except.ok.injEq] at hr
       obtain ⟨hw, hm⟩ := hr; subst hw hm
-      refine ⟨h, MExt.refl _, mu, ?_, ?_⟩
+      refine ⟨h, MExt.refl _, mu, ?_, ?_, fun _ hx => hx⟩
       · exact Nat.le_trans (Nat.min_le_right _ _) (Nat.min_le_left _ _)
       · intro a _; rw [hg, denM_one]; simp
     · split at hr
       · next hg =>
         simp only [Prod.mk.injEq, Except.ok.injEq] at hr
         obtain ⟨hw, hm⟩ := hr; subst hw hm
-        refine ⟨h, MExt.refl _, mv, ?_, ?_⟩
+        refine ⟨h, MExt.refl _, mv, ?_, ?_, fun _ hx => hx⟩
         · exact Nat.le_trans (Nat.min_le_right _ _) (Nat.min_le_right _ _)
         · intro a _; rw [hg, denM_neg_one]; simp
       · next hg1 hg2 =>
@@ -219,7 +221,7 @@ theorem mIteF_sound : ∀ f, IteSound (mIteF f) := by
           simp only [Prod.mk.injEq, Except.ok.injEq] at hr
           obtain ⟨hw, hm⟩ := hr; subst hw hm
           have C := h.cache g u v _ hc
-          exact ⟨h, MExt.refl _, C.mw, C.lvl, C.den⟩
+          exact ⟨h, MExt.refl _, C.mw, C.lvl, C.den, fun _ hx => hx⟩
         · next hcn =>
           rw [MTbl.levelOf?_eq m.tbl h.term g mg, MTbl.levelOf?_eq m.tbl h.term u mu,
             MTbl.levelOf?_eq m.tbl h.term v mv] at hr
@@ -253,7 +255,7 @@ theorem mIteF_sound : ∀ f, IteSound (mIteF f) := by
                 split at hr
                 · simp at hr
                 · next nodes m1 hlist =>
-                  obtain ⟨hinv1, hext1, hlen1, hall1⟩ := mIteList_spec (mIteF f) ih gc uc vc m h
+                  obtain ⟨hinv1, hext1, hlen1, hex1, hall1⟩ := mIteList_spec (mIteF f) ih gc uc vc m h
                     (fun x hx => (memg x hx).1) (fun x hx => (memu x hx).1) (fun x hx => (memv x hx).1)
                     (by rw [lg, lu]) (by rw [lu, lv]) nodes m1 hlist
                   have hW1 := hinv1.wf.toMWF
@@ -301,7 +303,11 @@ theorem mIteF_sound : ∀ f, IteSound (mIteF f) := by
                       · intro a ha
                         rw [denM_ext hext hW g a mg, denM_ext hext hW u a mu, denM_ext hext hW v a mv]
                         exact hden a ((hext.valid a).mpr ha)
-                    refine ⟨?_, hext, F.mem, (by rw [hz]; exact hlvl), hden⟩
+                    refine ⟨?_, hext, F.mem, (by rw [hz]; exact hlvl), hden, ?_⟩
+                    rotate_left
+                    · intro ext hx
+                      have E := F.exact ext (hex1 ext hx)
+                      exact ⟨E.cnt, E.extZero⟩
                     -- the invariant with the new computed-table entry
                     refine ⟨F.inv.wf, F.inv.pred, F.inv.refOne, F.inv.refDom, F.inv.maxGe, F.inv.maxOK,
                       F.inv.freeOK, F.inv.freeNodup, ?_⟩
